@@ -5,7 +5,7 @@
 # <seed-dir> = /verif/seeded/<id> (uses patch.diff) ; results/evidence go to a temp dir.
 set -u
 V=$(cd "$(dirname "$0")" && pwd)
-sd=$1; chk=$2; shift 2
+sd=$(cd "$1" && pwd); chk=$2; shift 2
 tmp=$(mktemp -d /tmp/seedrun.XXXXXX)
 trap 'rm -rf $tmp' EXIT
 files=$(grep '^+++ b/' $sd/patch.diff | sed 's#^+++ b/##')
